@@ -471,8 +471,13 @@ def run(w: Workload):
                          "prefix) put into %d cells (9 group shapes x 4 blank patterns, every text twice; n/a, empty, unknown tag, "
                          "{reference}) x %d tables of <= %d rows of 6 kinds (TabularInput from DataFrame / TSV text / with a sidecar "
                          "column, SpreadsheetInput with named and numbered tag columns, BaseInput with a mapper) x {to short first, "
-                         "to long first} x 4 conversions in a row"
-                         % (sum(len(x) for x in unit[3]), res["cells"], res["tables"], c03_table.ROWS_PER_TABLE))
+                         "to long first} x 4 conversions in a row; the same through df_util.convert_to_form on a bare Series / DataFrame; "
+                         "plus %d sibling cells (5 value-taking + 5 other tags per member, each with a value / extension in 6 writings equal "
+                         "up to letter case -- name and suffix re-cased independently -- alone, beside a re-cased companion tag in 4 blank "
+                         "patterns, and inside a group) in %d tables (all 8 kinds x order as written / reversed / shuffled): several cells "
+                         "of one column, and of two columns of one row, differ only in the case of a value or extension"
+                         % (sum(len(x) for x in unit[3]), res["cells"], res["tables"], c03_table.ROWS_PER_TABLE,
+                            res.get("sibling_cells", 0), res.get("sibling_tables", 0)))
     for label, n_tags, n_all, n_cases, n_spellings in per_config:
         w.part(label, cases=n_cases, bound="%d of %d tags x all suffix-path spellings x 8 (value nodes) or 6 (others) suffix kinds x <= 4 case variants"
                % (n_tags, n_all), exhaustive=(n_tags == n_all), tag_texts_resolved=n_spellings)
